@@ -177,7 +177,8 @@ CHECKS = {
         "(equal and unique as a TLC invariant) and the placement step PlaceNext; TLC explores every placement interleaving of "
         "3072 single-relation programs, chains/trees of three in every listing order, cyclic programs and 144 arrays, checking "
         "confluence, order validity (ValidOrder of DepOrderProps) and that cycles block. Each program runs through Placer::place "
-        "(locations equal, cycles = error) and the observed placement order is validated step by step by Trace_Placer.",
+        "(locations equal, cycles = error) and the observed placement order is validated step by step by Trace_Placer. Apalache "
+        "shows for ALL integers that the closed-form origin is the unique origin satisfying Touches and Flush (PlacerInd.tla).",
    note="Trusted: TLC, the program->Library builder. References are instances of the same layout; orthogonal alignment.",
    tech="TLA+ placement spec, TLC exhaustive over programs and interleavings; S->I replay; I->S trace validation"),
 }
